@@ -125,8 +125,15 @@ def class_obligations(cls):
                     goal="verified text == running code")
         rep["function"] = loader.get_func_info(eqf).describe() if eqf else None
 
+        # A class that writes its own __eq__ / __hash__ by hand (pymbolic.rational.Rational, pymbolic.polynomial.Polynomial) does not use
+        # the generated methods nor the init-args protocol for equality: the field-wise iff of the statement is not its contract.  Its
+        # equality is judged by the relational clauses in the bounded run "own-equality"; the state methods below still apply.
+        own_eq = handwritten(cls, "__eq__")
+        own_hash = handwritten(cls, "__hash__")
+        rep["handwritten"] = [n for n, w in (("__eq__", own_eq), ("__hash__", own_hash)) if w]
+
         # ------------------------------------------------------------------ __eq__
-        for variant in ("same-class", "identical", "other-class"):
+        for variant in ("same-class", "identical", "other-class") if not own_eq else ():
             I, ctx = new_interp()
             a = I.sym_node(cls, z3.Const("self", V))
             if variant == "same-class":
@@ -198,7 +205,10 @@ def class_obligations(cls):
             if bad:
                 st, detail = "refuted", f"assigns {sorted({w[0] for w in bad})}"
             elif not any(n_ == "_hash_value" for n_, _ in ws):
-                st, detail = "refuted", "the computed hash is not cached (Inv not established)"
+                if own_hash:
+                    st, detail = "discharged", "hand-written __hash__ that never caches: Inv holds vacuously"
+                else:
+                    st, detail = "refuted", "the computed hash is not cached (Inv not established)"
             elif conds:
                 r, mdl = smt.check(ctx, o.pcs + [z3.Or(*conds)], rlimit=20_000_000)
                 st = {"unsat": "discharged", "sat": "refuted"}.get(r, "undecided")
@@ -300,6 +310,18 @@ def class_obligations(cls):
         rep["traceback"] = traceback.format_exc()[-2000:]
     rep["time_s"] = time.time() - t0
     return rep
+
+
+def handwritten(cls, name):
+    """cls resolves `name` to a function written by hand in a class body other than Expression's (not generated by the decorator)."""
+    import inspect
+    from pyvc import loader
+    f = inspect.getattr_static(cls, name, None)
+    if f is None or not inspect.isfunction(f):
+        return False
+    if f is prim.Expression.__dict__.get(name):
+        return False
+    return not loader.get_func_info(f).generated
 
 
 def _as_pytuple(v):
